@@ -21,6 +21,9 @@ func (t Trouble) Error() string { return "harness trouble: " + t.Msg }
 
 type stopRun struct{}
 
+// KnownSigs is loaded from known_findings.json at start-up.
+var KnownSigs = map[string]bool{}
+
 // Ctx is handed to a property's run function.
 type Ctx struct {
 	Prop   string
@@ -37,6 +40,8 @@ type Ctx struct {
 	// Nontrivial is set by the run when it reached the property's interesting probe.
 	Nontrivial bool
 	Decoded    []string // human readable scenario (bounded)
+	// Known signatures (known_findings.json): recorded and counted, the run goes on.
+	Known map[string]bool
 }
 
 func (c *Ctx) Inc(key string, n int64) { c.Stats[key] += n }
@@ -60,6 +65,11 @@ func (c *Ctx) Note(format string, args ...interface{}) {
 
 // Fail records the violation and unwinds the run.
 func (c *Ctx) Fail(kind, sig, msg string, detail interface{}) {
+	if c.Known[c.Prop+":"+sig] {
+		c.Stats["known."+c.Prop+":"+sig]++
+		c.Log.Add("oracle", "KNOWN", "%s %s", kind, sig)
+		return
+	}
 	if c.Viol == nil {
 		c.Viol = &Violation{Kind: kind, Sig: c.Prop + ":" + sig, Msg: msg, Detail: detail}
 		c.Log.Add("oracle", "VIOLATION", "%s %s", kind, sig)
@@ -97,7 +107,7 @@ type RunFn func(c *Ctx)
 // properties that look for SUT panics recover them themselves.
 func Execute(prop, tier string, idx int, src *Src, env interface{}, cfg map[string]string, fn RunFn, keepLog int) (res *RunResult, ctx *Ctx) {
 	c := &Ctx{Prop: prop, Tier: tier, Idx: idx, Src: src, Log: NewLog(keepLog),
-		Stats: map[string]int64{}, States: map[uint64]struct{}{}, Env: env, Cfg: cfg}
+		Stats: map[string]int64{}, States: map[uint64]struct{}{}, Env: env, Cfg: cfg, Known: KnownSigs}
 	res = &RunResult{Idx: idx}
 	func() {
 		defer func() {
